@@ -54,7 +54,7 @@ Theorem hash_table : forall c, no_error c -> explicit_flag c GHash = tN ->
   prov_at (decide c) Dh = Some
     (if auto_detect c && class_defines c Dh then untouched c Dh
      else if negb (generate c GEq) then untouched c Dh
-     else if c_frozen c then pG else pZ).
+     else if effectively_frozen c then pG else pZ).
 Proof. exact hash_table_l. Qed.
 Print Assumptions hash_table.
 
@@ -100,16 +100,27 @@ Print Assumptions pickling_follows_slots.
     and that only moves the default of the pickling group: every other name is
     unaffected, and an explicit flag or an auto-detected own method still wins. *)
 Theorem base_kind_irrelevant : forall c b,
-  base_generated_pair b = base_generated_pair (c_base c) -> decide (with_base c b) = decide c.
+  base_generated_pair b = base_generated_pair (c_base c) ->
+  base_frozen b = base_frozen (c_base c) -> decide (with_base c b) = decide c.
 Proof. exact base_kind_irrelevant_l. Qed.
 Print Assumptions base_kind_irrelevant.
 
 Theorem generated_base_pair_only_default : forall c b, no_error c ->
+  base_frozen b = base_frozen (c_base c) ->
   (forall d, d <> Dg -> d <> Dst -> prov_at (decide (with_base c b)) d = prov_at (decide c) d) /\
   (c_gs c <> tN \/ auto_detect c && existsb (body_defines c) [Dg; Dst] = true ->
      decide (with_base c b) = decide c).
 Proof. exact generated_base_pair_only_default_l. Qed.
 Print Assumptions generated_base_pair_only_default.
+
+(** Frozenness is inherited from a frozen attrs base: leaving out [frozen=True] on the
+    subclass changes no decision (hash default, frozen [__setattr__]/[__delattr__], the
+    custom-[__setattr__] rejection) unless the body's own [__setattr__] hides the base's. *)
+Theorem frozen_is_inherited : forall c,
+  base_frozen (c_base c) = true -> body_defines c Dsa = false ->
+  decide (with_frozen c false) = decide (with_frozen c true).
+Proof. exact frozen_is_inherited_l. Qed.
+Print Assumptions frozen_is_inherited.
 
 Theorem str_off : forall c, no_error c ->
   prov_at (decide c) Ds = Some (if str_arg c then pG else untouched c Ds).
